@@ -25,7 +25,7 @@ def main():
         coords = [lab(k, timedim) for k in axis]
         pix = np.array([np.nan if v is None else float(v) for v in c["pix"]])
         other = np.arange(len(axis), dtype="float64") * 7.0 - 3.0
-        cube = np.stack([pix, other])[:, None, :]            # (y=2, x=1, dim)
+        cube = np.stack([pix, other])[:, None, :].astype(c.get("dtype", "float64"))            # (y=2, x=1, dim)
         if c.get("first"):
             da = xr.DataArray(np.moveaxis(cube, 2, 0), dims=(c["dim"], "y", "x"), coords={c["dim"]: coords})
         else:
